@@ -159,6 +159,21 @@ CHECKS = [
              "(_raise_nonposdef=False) both variants strictly decrease the energy with a step along steepest descent; with "
              "_raise_nonposdef=True eager raises and compiled reports -1.",
      "design_ref": "DESIGN.md 4/C15"},
+    {"property_id": "C17", "engine": "B", "category": "other", "technique": TECH_B + "; the eager minimiser is executed as real Python on object arrays (vector primitives of its module replaced), the OBJECTIVE is uninterpreted (fresh f, grad, symmetric Hessian symbols per distinct point + congruence), all feasible paths explored; the compiled variant is interpreted in fork mode (conditions become path decisions)",
+     "note": NOTE_B + " Bounded: one outer Newton iteration, dimension 1 (2 thorough), inner CG <= 2 iterations, all 9 line-search trials. _trust_ncg outside the claim.",
+     "text": "Bounded symbolic verification of nifty.re _newton_cg (eager) and _static_newton_cg (compiled) against an arbitrary "
+             "objective: on every path the returned energy does not exceed the start energy and belongs to an evaluated point; with "
+             "negative curvature along a non-zero gradient every trial point lies on the ray x0 - s g (s > 0), the iteration does not "
+             "abort when a trial lowers the energy and an accepted lowering trial gives a strictly lower result; the compiled variant "
+             "returns the same x, energy and status as the eager one on every path (thorough).",
+     "design_ref": "DESIGN.md 4/C17"},
+    {"property_id": "C23", "engine": "A", "category": "other", "technique": "symbolic execution of the real nifty.cl.utilities.allreduce_sum/_send/_recv/_bcast on every task of a simulated synchronous-send MPI world: task count, per-task summand counts and the sender matched by a source-unspecific receive are z3 integers concretised by solver-decided forking; summands are free-magma terms (uninterpreted non-associative +); shareRange is checked for fully symbolic integers by z3 (NIA)",
+     "note": "Bounds: <= 3 tasks / 5 summands quick, <= 5 tasks / 9 summands thorough; shareRange up to 10^6. The mpi4py communicator is replaced by a model (synchronous sends, FIFO per pair, collectives as barriers): the real MPI progress engine is outside the claim.",
+     "text": "Bounded symbolic verification: for every feasible (tasks, distribution of summands incl. empty tasks, message matching) "
+             "each task's allreduce_sum returns exactly the term the single-process call returns (scalars, ndarrays, Fields, "
+             "MultiFields), no task remains blocked when sends are synchronous, all tasks enter the same collectives; shareRange tiles "
+             "[0, nwork) in order with sizes differing by at most one for ALL nwork, nshares, share within the bound.",
+     "design_ref": "DESIGN.md 4/C23"},
 ]
 
 ALL = [f"C{i:02d}" for i in range(1, 37)]
